@@ -100,3 +100,44 @@ def rule_remove_iter(ctx, R):
                           fn.split("::")[-1], b.names.get(l, "_%d" % l), b.bb_line(i), b.bb_line(y)), b.loc(i))
     R.inst("storage::engine", "engine-methods-scanned-for-indexed-removal-loops", {"functions": n, "removal_sites_in_loops": ns})
     R.floor("engine_methods_scanned", min(n, 50))
+
+
+# ---- R-SETALG-MISSING ---------------------------------------------------------------------------------
+# what a key that does not exist means for the operand loop of the multi-key set commands: the empty
+# set.  Union and difference skip it, an intersection becomes empty.
+MISSING_OPERAND = {"sunion": "skip", "sdiff": "skip", "sinter": "empty"}
+
+
+def rule_setalg_missing(ctx, R):
+    from shared import ENGINE, SHARD_MAP
+    n = 0
+    for nm, want in sorted(MISSING_OPERAND.items()):
+        cands = [b for fn, b in ctx.prog.bodies.items() if re.match(r"^" + re.escape(ENGINE + nm) + r"(::<.*>)?$", fn)]
+        if not cands:
+            raise shared.AnchorMissing("anchor function not found in facts: %s%s" % (ENGINE, nm))
+        b = cands[0]
+        lps = cfg.loops(b)
+        found = False
+        for i, t in b.calls():
+            if not re.search(SHARD_MAP + r"(get|get_mut)\b", t["f"] or ""):
+                continue
+            inl = [(h, body) for h, body in lps.items() if i in body]
+            if not inl:
+                continue
+            head, body = max(inl, key=lambda hb: len(hb[1]))
+            rs = shared.result_switch(b, i)
+            if rs is None or not rs["fail"]:
+                continue
+            found = True
+            n += 1
+            back_to_head = any(head in cfg.fwd(b, [f0]) for f0 in rs["fail"])
+            got = "skip" if back_to_head else "empty"
+            R.inst(b.fn, "missing-operand", {"command": nm.upper(), "at": b.loc(i), "a_missing_later_key": got, "reference": want})
+            if got != want:
+                R.finding(b.fn, "missing-operand:%s-instead-of-%s" % (got, want),
+                          "%s treats a later key that does not exist by %s (line %d); a missing key is the empty set, so %s" % (
+                              nm.upper(), "leaving the operand loop with the result it has / an empty result" if got == "empty" else "skipping it", b.bb_line(i),
+                              "a union and a difference are unchanged by it (SDIFF a missing = a)" if want == "skip" else "the intersection is empty"), b.loc(i))
+        if not found:
+            R.note("%s: no shard-map lookup inside an operand loop recognised" % nm)
+    R.floor("operand_loops", n)
